@@ -29,7 +29,24 @@ func oracleC11(v *View, vd *Verdict) {
 		norder := 0
 		died := false
 		connecting := false // CONNECT consumed while asleep/awake, CONNACK not yet sent
+		// "delivered once": a message the client has acknowledged (PUBACK, PUBREC) is never sent again,
+		// in this wake-up or a later one
+		sentMid := map[uint16]string{} // message id of a PUBLISH the gateway sent -> payload
+		acked := map[string]bool{}
 		for _, e := range sv.Evs {
+			if e.Kind == EvG2C && e.SNErr == nil && e.SN.Type == refsn.PUBLISH && e.SN.QoS > 0 && !died {
+				k := string(e.SN.Data)
+				if acked[k] {
+					vd.Add("C11", fmt.Sprintf("C11/sent-again-after-acknowledgement/qos%d", e.SN.QoS), "session %s t=%d: %s sent again although the client had acknowledged it", sv.Name, e.T, e.SN.String())
+					acked[k] = false // once per message
+				}
+				sentMid[e.SN.MsgID] = k
+			}
+			if e.Kind == EvC2G && e.SNErr == nil && (e.SN.Type == refsn.PUBACK || e.SN.Type == refsn.PUBREC) {
+				if k, ok := sentMid[e.SN.MsgID]; ok {
+					acked[k] = true
+				}
+			}
 			if e.Kind == EvEnd || e.Kind == EvShutdown || e.Kind == EvBFin || e.Kind == EvBClose || e.Kind == EvMqClose {
 				died = true
 			}
